@@ -53,6 +53,65 @@ def build(c):
     return files, wf, script
 
 
+def cli_part(ctx, out):
+    """the real command-line program (cmd/arcaflow/main.go built with the scripted deployer): for every CLI case of
+    FileCache.tla the exit code, and for successful runs the printed output id and data"""
+    cases = []
+    for m in re.finditer(r'<<"CLI", "(.*)">>', out):
+        cases.append(json.loads(m.group(1).encode().decode('unicode_escape')))
+    if len(cases) != 72:
+        ctx.inconclusive('FileCache.tla exported %d CLI cases, expected 72' % len(cases))
+        return
+    rng = random.Random(ctx.seed * 131 + 7)
+    if ctx.quick:
+        rng.shuffle(cases)
+        keep, seen = [], set()
+        for c in cases:
+            k = (c['c']['fault'], c['c']['explicit'])
+            if k not in seen:
+                seen.add(k)
+                keep.append(c)
+        cases = keep
+    try:
+        cli = vlib.build_cli(ctx.work)
+    except RuntimeError as e:
+        ctx.inconclusive(str(e)[-400:])
+        return
+    n = 0
+    for k, cc in enumerate(cases):
+        c = cc['c']
+        base = os.path.join(ctx.work, 'cli%03d' % k, 'parent', 'ctx')
+        os.makedirs(base)
+        conf = {'depth': 1, 'layout': 'rr', 'shared': False, 'out': c['out'], 'explicit': c['explicit'], '_l2': 'l2.yaml', '_l3': 'l3.yaml'}
+        files, wf, script = build(conf)
+        if c['fault'] == 'run-fails':
+            script['a']['exec'] = {'out': 'success', 'crash': True}
+        for name, w in files.items():
+            open(os.path.join(base, name), 'w').write(vlib.render_workflow(w))
+        if c['fault'] == 'invalid-workflow':
+            open(os.path.join(base, 'workflow.yaml'), 'w').write('version: v0.2.0\nsteps: {a: [not, a, step]}\noutputs: {}\n')
+        open(os.path.join(base, 'config.yaml'), 'w').write(vlib.CLI_CONFIG)
+        wfarg = 'nosuch.yaml' if c['fault'] == 'missing-workflow' else 'workflow.yaml'
+        cwd = base if c['dir'] == 'abs' else os.path.dirname(base)
+        dirarg = base if c['dir'] == 'abs' else 'ctx'
+        code, so, se, secs = vlib.run_cli(cli, base, script, ['-context', dirarg, '-workflow', wfarg, '-config', 'config.yaml'], cwd=cwd)
+        n += 1
+        tag = 'cli fault=%s out=%s explicit=%s dir=%s' % (c['fault'], c['out'], c['explicit'], c['dir'])
+        rp = {'kind': 'cli-scenario', 'how': 'verifcli -context <dir> -workflow %s -config config.yaml (VERIF_CLI_SCRIPT=%s)' % (wfarg, json.dumps(script)), 'case': c}
+        if 'panic:' in se and 'go.flow.arcalot.io/engine' in se:
+            ctx.add('C20', 'process-crashed', tag + ': ' + engine_check.first_panic_line(se), rp)
+            continue
+        if code != cc['exit']:
+            ctx.add('C20', 'cli-exit-code-differs-from-specification', '%s: exit %s want %s' % (tag, code, cc['exit']), rp)
+        if cc['prints']:
+            m = re.search(r'^output_id: (\S+)', so, re.M)
+            if not m or m.group(1).strip('"') != cc['id']:
+                ctx.add('C20', 'cli-prints-another-output-than-direct-execution', '%s: printed %r' % (tag, (m.group(1) if m else so[:80])), rp)
+            elif 'a/%s' % {'success': 'success', 'error': 'error', 'other': 'alt'}[c['out']] not in so:
+                ctx.add('C20', 'cli-prints-other-data-than-direct-execution', '%s: %s' % (tag, so[:120].replace('\n', ' ')), rp)
+    ctx.cov(cli_cases=n)
+
+
 def run(ctx):
     rng = random.Random(ctx.seed * 4099 + 20)
     rc, out, td = vlib.tlc(vlib.SPEC, 'FileCache', 'SPECIFICATION Spec\nCHECK_DEADLOCK FALSE\n', ctx.work, timeout_s=300, workers=1)
@@ -67,6 +126,7 @@ def run(ctx):
         return
     st = vlib.tlc_stats(out)
     ctx.cov(states=st.get('distinct', 0), transitions=st.get('generated', 0), configurations=len(confs))
+    cli_part(ctx, out)
     if ctx.quick:
         # stratified: every (depth, layout) class is sampled
         rng.shuffle(confs)
@@ -150,4 +210,4 @@ def run(ctx):
     ctx.cov(evaluations=2 * n, distinct_nontrivial=n,
             rule='FileCache.tla enumerates all 756 configurations (nesting depth x directory layout of the nested files x shared sub-workflow x producible output x explicit schema/flag x abs/rel context dir x working directory) with expected id/flag; each tree is written to disk and run through engine.New/Parse/Run and, for comparison, prepared and executed directly',
             samples=[{'config': meta[0][0], 'expected_id': meta[0][1], 'expected_flag': meta[0][2]}])
-    ctx.assumptions = ['the CLI exit-code table is specified (ExitCode) and its inputs (parse verdict, run error, flag) are checked; the binary itself is not run because its default configuration needs a container runtime']
+    ctx.assumptions = ['the command-line program is run with the scripted deployer registered through an overlaid init(); its default deployers (podman, docker, kubernetes, python) are not exercised']
